@@ -42,6 +42,9 @@ class Executor:
         self.old_state = None       # for old(...)
         self.loop_specs = {}
         self.loop_ordinal = 0
+        self.loop_maps = {}
+        self.unit_env = {}
+        self.quant_facts = []       # ranges of the bound variables of enclosing spec quantifiers
 
     # ------------------------------------------------------------------ obligations
     def oblige(self, kind, state, goal, label=None, info=None):
@@ -84,6 +87,9 @@ class Executor:
     def raise_if(self, state, cond, cls_name, msg=None, args=()):
         """Fork an exceptional outcome under `cond`; continue normally under not cond."""
         if self.spec_mode:
+            # clauses are total: a definitely-failing alternative (under its union guard) is dropped
+            if is_true(simp(cond)):
+                raise _Abort()
             return
         cond = simp(cond)
         if is_false(cond):
@@ -119,6 +125,8 @@ class Executor:
             return z3.BoolVal(False)
         if isinstance(v, (VBytes, VStr)):
             return z3.Length(v.t) > 0
+        if isinstance(v, VABytes):
+            return v.n > 0
         if isinstance(v, VReal):
             return v.t != 0
         if isinstance(v, VTuple):
@@ -172,6 +180,10 @@ class Executor:
             return z3.BoolVal(False)
         if ka in ("bytes", "str"):
             return a.t == b.t
+        if ka == "abytes":
+            i = z3.Int(fresh_name("eq_i"))
+            return z3.And(a.n == b.n, z3.ForAll([i], z3.Implies(z3.And(i >= 0, i < a.n),
+                                                                z3.Select(a.arr, i) == z3.Select(b.arr, i))))
         if ka == "none":
             return z3.BoolVal(True)
         if ka == "tuple":
@@ -256,6 +268,37 @@ class Executor:
             res.append(z3.And(g, r))
         return simp(disj(res))
 
+    # ------------------------------------------------------------------ cheap entailment (term shaping only)
+    def prove_quick(self, state, cond, timeout_ms=150):
+        """True if the quantifier-free part of the path condition entails cond (best effort; used only to
+        choose simpler but equivalent terms, never to drop an obligation)"""
+        c = simp(cond)
+        if is_true(c):
+            return True
+        if is_false(c):
+            return False
+        s = z3.Solver()
+        s.set("timeout", timeout_ms)
+        for t in state.pc:
+            if not _has_quant_or_rec(t):
+                s.add(t)
+        for t in self.quant_facts:
+            s.add(t)
+        s.add(z3.Not(c))
+        try:
+            return s.check() == z3.unsat
+        except z3.Z3Exception:
+            return False
+
+    def index_term(self, state, i, n):
+        """normalised Python index: i if provably >= 0, else If(i < 0, i + n, i)"""
+        i = simp(i)
+        if z3.is_int_value(i):
+            return i if i.as_long() >= 0 else simp(i + n)
+        if self.prove_quick(state, i >= 0):
+            return i
+        return z3.If(i < 0, i + n, i)
+
     # ------------------------------------------------------------------ distribution over unions
     def dist(self, state, vals, fn):
         if not any(isinstance(v, VUnion) for v in vals):
@@ -289,6 +332,8 @@ class Executor:
         def f(a):
             if isinstance(a, (VBytes, VStr)):
                 return VInt(z3.Length(a.t))
+            if isinstance(a, VABytes):
+                return VInt(a.n)
             if isinstance(a, VTuple):
                 return VInt(len(a.items))
             if isinstance(a, VRef):
@@ -835,6 +880,8 @@ class Executor:
             raise Unsupported("class attribute %s.%s" % (a.name, attr))
         if isinstance(a, (VBytes, VStr, VInt, VTuple, VReal)):
             return VFunc("builtin", a.kind + "." + attr, self_val=a)
+        if isinstance(a, VABytes):
+            return VFunc("builtin", "bytes." + attr, self_val=a)
         if isinstance(a, VNoneT):
             self.raise_if(state, z3.BoolVal(True), "AttributeError")
         if isinstance(a, VOpaque):
@@ -968,7 +1015,7 @@ class Executor:
                 return v
             if is_true(go):
                 return rec(i + 1)
-            if _has_call(e.values[i + 1:]):
+            if _has_call(e.values[i + 1:]) and not self.spec_mode:
                 return self.fork_eval(state, go, lambda s: self._boolop_rest(s, e, i + 1), v)
             return self.guarded_choice(state, go, lambda: rec(i + 1), lambda: v)
         return rec(0)
@@ -1140,6 +1187,32 @@ def _to_load(t):
         if not hasattr(n, "lineno"):
             n.lineno = getattr(t, "lineno", 0)
     return t2
+
+
+_qr_cache = {}
+
+
+def _has_quant_or_rec(t):
+    key = t.get_id()
+    if key in _qr_cache:
+        return _qr_cache[key][1]
+    res = False
+    todo, seen = [t], set()
+    while todo:
+        x = todo.pop()
+        if x.get_id() in seen:
+            continue
+        seen.add(x.get_id())
+        if z3.is_quantifier(x):
+            res = True
+            break
+        if z3.is_app(x):
+            if x.decl().kind() == z3.Z3_OP_RECURSIVE:
+                res = True
+                break
+            todo.extend(x.children())
+    _qr_cache[key] = (t, res)
+    return res
 
 
 def _has_call(nodes):
